@@ -225,7 +225,8 @@ def enumerate_faults(ctx, op, meta, tmproot, crash_sample):
             try:
                 p = op.build(root)
                 base = dict(base0, fault_kind=kind, fault_index=idx, fault_mode=mode or "raise", crash=crash)
-                replay = {"operation": op.name, "meta": {k: str(v) for k, v in meta.items()}, "fault": [kind, idx, mode, crash]}
+                replay = {"what": "fault", "seed": ctx.seed, "tier": ctx.tier, "maker": meta.get("maker"), "case": meta.get("case"),
+                          "operation": op.name, "meta": {k: str(v) for k, v in meta.items()}, "fault": [kind, idx, mode, crash]}
                 ctx.case((op.name, tuple(sorted((k, str(v)) for k, v in meta.items())), kind, idx, mode, crash), nontrivial=True,
                          sample={"operation": op.name, "meta": {k: str(v) for k, v in meta.items()}, "fault": [kind, idx, mode, "crash" if crash else "error"]},
                          sample_key=(op.name, kind, crash))
@@ -278,7 +279,7 @@ def classify_failure(pr):
 
 
 def rejected_invocations(ctx, i, tmproot):
-    rng = ctx.rng
+    rng = ctx.case_rng("rejected:{}".format(i))
     root = tempfile.mkdtemp(prefix="r", dir=tmproot)
     try:
         truth = KINDS[i % 3]
@@ -309,7 +310,7 @@ def rejected_invocations(ctx, i, tmproot):
         ctx.event("rejected_invocations")
         ctx.feature("rejected=" + cls)
         base = {"op": "rejected_invocation", "reject_class": cls}
-        replay = {"argv": argv}
+        replay = {"what": "rejected", "case": i, "seed": ctx.seed, "tier": ctx.tier, "argv": argv}
         how, et, last = classify_failure(pr)
         if pr.returncode == 0:
             ctx.report(dict(base, field="exit_status", tag="accepted", expected="non-zero", observed="0"), replay)
@@ -323,7 +324,6 @@ def rejected_invocations(ctx, i, tmproot):
 
 def accepted_combinations(ctx, tmproot):
     """Argument combinations the parsers accept must be carried out without an internal error."""
-    rng = ctx.rng
     flag = {"argparse_function": "--argparse-function", "class": "--class", "function": "--function"}
     combos = []
     for truth in KINDS:
@@ -336,6 +336,7 @@ def accepted_combinations(ctx, tmproot):
         root = tempfile.mkdtemp(prefix="a", dir=tmproot)
         try:
             others = [k for k in KINDS if k != truth]
+            rng = ctx.case_rng("accepted:{}".format(ci))
             p = make_project(rng, root, truth, {others[0]: "agreeing", others[1]: "missing"}, kinds=subset)
             argv = ["sync", "--truth", truth]
             for k in subset:
@@ -349,7 +350,8 @@ def accepted_combinations(ctx, tmproot):
             how, et, last = classify_failure(pr)
             if pr.returncode != 0 and how == "traceback":
                 ctx.report({"op": "accepted_invocation", "truth": truth, "n_kinds": len(subset), "names": names, "field": "exit_status",
-                            "tag": "internal_exception", "exc": et, "msg": last[:160], "expected": "carried out (or a usage error)", "observed": et}, {"argv": argv})
+                            "tag": "internal_exception", "exc": et, "msg": last[:160], "expected": "carried out (or a usage error)", "observed": et},
+                           {"what": "accepted", "seed": ctx.seed, "tier": ctx.tier, "argv": argv})
         finally:
             shutil.rmtree(root, ignore_errors=True)
 
@@ -367,7 +369,8 @@ def run(ctx):
             for maker in (op_sync, op_sync_properties, op_gen):
                 if maker is not op_sync and j % 3:
                     continue
-                op, meta = maker(ctx.rng, i)
+                op, meta = maker(ctx.case_rng("{}:{}".format(maker.__name__, i)), i)
+                meta = dict(meta, maker=maker.__name__, case=i)
                 enumerate_faults(ctx, op, meta, tmproot, crash_sample=(j % (2 if ctx.quick() else 1) == 0))
         for j in range(ctx.n(40, 1200)):
             rejected_invocations(ctx, j * ctx.shard[1] + ctx.shard[0], tmproot)
@@ -381,6 +384,19 @@ def run(ctx):
 def replay(payload):
     from ..runner import Ctx
 
-    ctx = Ctx(PROPERTY, "quick", 0)
-    ctx.case(("replay",))
+    rp = payload["replay"]
+    ctx = Ctx(PROPERTY, rp.get("tier", "quick"), rp.get("seed", 0))
+    tmproot = tempfile.mkdtemp(prefix="dtverif-c20-")
+    try:
+        if rp.get("what") == "rejected":
+            rejected_invocations(ctx, rp["case"], tmproot)
+        elif rp.get("what") == "accepted":
+            accepted_combinations(ctx, tmproot)
+        else:
+            maker = {"op_sync": op_sync, "op_sync_properties": op_sync_properties, "op_gen": op_gen}[rp["maker"]]
+            op, meta = maker(ctx.case_rng("{}:{}".format(rp["maker"], rp["case"])), rp["case"])
+            # the whole fault enumeration of that one operation (the recorded fault is among them)
+            enumerate_faults(ctx, op, dict(meta, maker=rp["maker"], case=rp["case"]), tmproot, crash_sample=bool(rp["fault"][3]))
+    finally:
+        shutil.rmtree(tmproot, ignore_errors=True)
     return ctx
